@@ -9,6 +9,8 @@ package main
 //   get <sid> b e             GetMessages
 //   iter <sid> b e k          IterateMessages with a callback that fails on its k-th call (k = 0: never)
 //   refresh <sid> | reset <sid> | reopen <sid>   (reopen = Close, then a fresh store from the factory)
+//   sqlinter <sid> <k> <op1> / <op2>   (sql kind) op2 runs to completion when op1 is about to execute its k-th SQL statement;
+//                                      the observation is op1's, its counters read after both
 //
 // Observation (one line):
 //   r <ok|err> c <S> <T> e <y|n> m <count> <hex>*  [f <header> <body> <senderseqnums> <targetseqnums> <sess>]
@@ -40,6 +42,8 @@ type failCtl struct {
 	count  int
 	failAt int // 0 = never
 	log    []string
+	hookAt int    // 0 = never: run hook just before the hookAt-th statement executes
+	hook   func() // (its own statements are not counted against failAt / hookAt: both are cleared first)
 }
 
 var sqlCtl = &failCtl{}
@@ -53,6 +57,11 @@ func (c *failCtl) hit(q string) error {
 	}
 	if c.failAt != 0 && c.count == c.failAt {
 		return fmt.Errorf("verif: injected failure of statement %d", c.count)
+	}
+	if c.hookAt != 0 && c.count == c.hookAt && c.hook != nil {
+		h := c.hook
+		c.hookAt, c.hook = 0, nil
+		h()
 	}
 	return nil
 }
@@ -363,6 +372,32 @@ func (im *storeImpl) exec(op string) string {
 		if len(w) >= 1 && (strings.HasPrefix(w[0], "crash") || w[0] == "sqlfail") {
 			return im.execCrash(w)
 		}
+		if w[0] == "sqlinter" {
+			// sqlinter <sid> <k> <op1 …> / <op2 …>
+			k, cut := mustInt(w[2]), -1
+			for i := 3; i < len(w); i++ {
+				if w[i] == "/" {
+					cut = i
+				}
+			}
+			if cut < 4 || cut+1 >= len(w) {
+				panic("bad sqlinter op")
+			}
+			op1, op2 := strings.Join(w[3:cut], " "), strings.Join(w[cut+1:], " ")
+			fired := false
+			sqlCtl.arm(0)
+			sqlCtl.hookAt, sqlCtl.hook = k, func() { fired = true; im.exec(op2) }
+			res := im.exec(op1)
+			sqlCtl.hookAt, sqlCtl.hook = 0, nil
+			if !fired {
+				return "r notfired"
+			}
+			// the counters of the observation are read now, after both ops
+			if s, ok := im.sess[w[1]]; ok && s.st != nil && strings.HasPrefix(res, "r ok") {
+				return im.obs(s, true, nil)
+			}
+			return res
+		}
 		if w[0] == "open" {
 			kind, sid := w[1], w[2]
 			if old, ok := im.sess[sid]; ok && old.st != nil {
@@ -585,6 +620,31 @@ func genStoreOp(r *rng, kind string, g *storeSessGen, o *out, do func(string) st
 	}
 	var op, name string
 	switch {
+	case kind == "sql" && r.chance(1, 7):
+		// the engine's event loop books an inbound message (target side) while a sending goroutine saves an outbound one
+		// (sender side), or the other way round: the second op runs to completion when the first is about to execute its
+		// first SQL statement; afterwards a fresh store on the same database has to answer like the live one
+		name = "sqlinter"
+		n := g.lastSaved + 1
+		if g.s > n {
+			n = g.s
+		}
+		sender := []string{fmt.Sprintf("saveIncr %s %d %s", g.sid, n, hx(genMsg(r))), "incS " + g.sid, fmt.Sprintf("setS %s %d", g.sid, r.rangeInt(1, 40))}[r.intn(3)]
+		target := []string{"incT " + g.sid, fmt.Sprintf("setT %s %d", g.sid, r.rangeInt(1, 40))}[r.intn(2)]
+		if strings.HasPrefix(sender, "saveIncr") {
+			g.lastSaved = n
+		}
+		if strings.HasPrefix(sender, "saveIncr") || r.chance(1, 2) { // (a transaction cannot be the interrupted one: it holds the database)
+			op = fmt.Sprintf("sqlinter %s 1 %s / %s", g.sid, target, sender)
+		} else {
+			op = fmt.Sprintf("sqlinter %s 1 %s / %s", g.sid, sender, target)
+		}
+		res := do(op)
+		parseCtr(res, g)
+		o.kind("op." + name)
+		res = do("reopen " + g.sid)
+		parseCtr(res, g)
+		return name
 	case c < 22:
 		name = "saveIncr"
 		n := g.lastSaved + 1
